@@ -209,7 +209,7 @@ pub fn run_case(f: &[&str]) -> String {
                     labels.push(format!("D{}:{}", cur_task.unwrap_or(0), w));
                 }
             }
-            rt::Ev::NotifyAll { .. } | rt::Ev::Exited { .. } => {}
+            _ => {}
         }
         // a worker that has just popped or been given a task is "running" from the model's point of view:
         // recorded when its task announces itself
